@@ -113,7 +113,7 @@ add("C09", "model_checking",
 
 add("C19", "model_checking",
     "exhaustive enumeration of schedules of the real BacktestManager.run: in-process path and pool path under a controlled pool substituted for multiprocessing.Pool (one real forked child per worker, each task's arguments un-pickled separately, every task -> worker assignment enumerated), results compared with solo runs; the real Pool is run as a conformance check",
-    "2 market mixes (one pool; two pools in one configuration) x every ordered selection of <= 3 of 4 strategies (opens and keeps positions; idle; trades and turns liquidity over every bar; period trigger) plus repeated strategies and a 9-strategy batch x threads 1 (in-process) and 2 / 3 (pool) x every assignment of the submitted units to workers (w^n). Each strategy writes its account history rows, actions, wallet and final positions in finalize(); each must equal the same strategy run alone with fresh objects. Map-style submissions are modelled with the pool's own chunking (a chunk is pickled as one unit). Three (thorough: five) runs under the real multiprocessing.Pool in a fresh interpreter check the substitute.",
+    "3 market mixes (one pool; two pools in one configuration; an hourly option market whose order book lives in the shared data frame) x every ordered selection of <= 3 of 4 strategies (opens and keeps positions; idle; trades and turns liquidity over every bar; period trigger) plus repeated strategies and a 9-strategy batch x threads 1 (in-process) and 2 / 3 (pool) x every partition of the submitted units among at most w identical workers. Each strategy writes its account history rows, actions, wallet and final positions in finalize(); each must equal the same strategy run alone with fresh objects. Map-style submissions are modelled with the pool's own chunking (a chunk is pickled as one unit). Three (thorough: five) runs under the real multiprocessing.Pool in a fresh interpreter check the substitute.",
     "Trusted: the controlled pool in mc/checks/c19.py (partial-order reduction: workers share nothing after the fork, so only the assignment and the order within a worker are observable). demeter.core.backtest.Pool / set_start_method / cpu_count are rebound in the harness process only.",
     "DESIGN.md §5 C19")
 
